@@ -109,12 +109,44 @@ def pressure_probe(state, p=1.0):
     return out
 
 
+def run_network(case, out, tube, mat, solver):
+    """the tube as the only spring of a SpringNetwork whose two ends both carry displacement conditions (no free network dof):
+    bottom held, top following the prescribed history"""
+    from srlife import spring
+    times = np.array([fl(x) for x in case["times"]])
+    dtop = np.array([fl(d) for d in case["dtop"]])
+    net = spring.SpringNetwork()
+    net.add_node(0)
+    net.add_node(1)
+    ts = spring.TubeSpring(tube, solver, mat)
+    net.add_edge(0, 1, object=ts)
+    net.displacement_bc(0, lambda t: 0.0)
+    # SpringNetwork.fj: the extension of the edge (0, 1) is u0 - u1
+    net.displacement_bc(1, lambda t: -float(np.interp(t, times, dtop)))
+    net.validate_setup()
+    net.solve_all()
+    last = len(times) - 1
+    q = {}
+    for f in FIELDS:
+        for s in SUFF:
+            q[f + s] = hx(tube.quadrature_results[f + s][: last + 1])
+    q["temperature"] = hx(tube.quadrature_results["temperature"][: last + 1])
+    out["quad"] = q
+    out["force"] = [hx(0.0)] * len(times)
+    out["stiffness"] = [hx(0.0)] * len(times)
+    out["asym"] = [0.0] * len(times)         # six components are stored; the state tensors are checked in the direct runs
+    out["outcome"] = "ok"
+    return out
+
+
 def run(case):
     out = {"id": case["id"]}
     try:
         tube = make_tube(case)
         mat = make_material(case["material"])
         solver = make_solver(case.get("params"))
+        if case.get("network"):
+            return run_network(case, out, tube, mat, solver)
         solver.setup_tube(tube)
         state = solver.init_state(tube, mat, i=0 if ("temperature" in tube.results and case.get("init") != "noindex") else None)
         solver.dump_state(tube, 0, state)
